@@ -255,7 +255,7 @@ pub fn run(ctx: &mut Ctx) {
                 c
             })
         },
-        t.pick(400, 10_000),
+        t.pick(400, 3_000),
     );
 }
 
